@@ -38,8 +38,16 @@ impl<T> View for KvxNameVec<T> { type V = Seq<T>; uninterp spec fn view(&self) -
 impl<'a> KvxStrIter<'a> {
     pub uninterp spec fn set(&self) -> Set<&'a str>;
     // Iterator::collect::<BTreeSet<&str>>(): exactly the yielded names
-    #[verifier::external_body] pub fn collect(self) -> (r: BTreeSet<&'a str>) ensures r@ == self.set() { unimplemented!() }
+    #[verifier::external_body] pub fn collect<B: KvxCollectStrs<'a>>(self) -> (r: B) ensures r.kvx_set() == self.set() { unimplemented!() }
 }
+pub trait KvxCollectStrs<'a>: Sized { spec fn kvx_set(&self) -> Set<&'a str>; }
+impl<'a> KvxCollectStrs<'a> for BTreeSet<&'a str> { open spec fn kvx_set(&self) -> Set<&'a str> { self@ } }
+#[verifier::external_body] pub struct KvxAttrKeys<'a> { p: core::marker::PhantomData<&'a Attribute> }
+impl<'a> KvxAttrKeys<'a> { pub uninterp spec fn set(&self) -> Set<Attribute>;
+    #[verifier::external_body] pub fn cloned(self) -> (r: KvxAttrKeys<'a>) ensures r.set() == self.set() { unimplemented!() }
+    #[verifier::external_body] pub fn collect(self) -> (r: BTreeSet<Attribute>) ensures r@ == self.set() { unimplemented!() } }
+// BTreeSet<String>::iter(): yields exactly the members
+impl BTreeSet<String> { #[verifier::external_body] pub fn iter(&self) -> (r: KvxNameIter<'_, String>) ensures forall|x: String| #![trigger self@.contains(x)] #![trigger r.items().contains(x)] self@.contains(x) <==> r.items().contains(x) { unimplemented!() } }
 pub open spec fn kvx_maps_into<'a, T: 'a, F: Fn(&'a T) -> &'a str>(f: F, x: T, s: Set<&'a str>) -> bool { exists|c: &'a str| #[trigger] s.contains(c) && f.ensures((&x,), c) }
 impl<'a, T> KvxNameIter<'a, T> { pub uninterp spec fn items(&self) -> Seq<T>;
     // Iterator::map: yields f(x) for every element x, nothing else
@@ -52,7 +60,10 @@ impl<T> KvxNameVec<T> { #[verifier::external_body] pub fn iter(&self) -> (r: Kvx
 pub struct AccessControlCreate { pub acp: AccessControlProfile, pub classes: KvxNameVec<AttrString>, pub attrs: KvxNameVec<Attribute> }
 // Entry accessors used by create_filter_entry (entry.rs get_ava_names / get_ava_iter_iutf8): the attribute names present, the class values
 impl Entry<EntryInit, EntryNew> {
-    pub uninterp spec fn attr_names(&self) -> Set<String>;
+    pub uninterp spec fn attr_keyset(&self) -> Set<Attribute>;      // the attributes present on the entry (keys of its attribute map)
+    pub open spec fn attr_names(&self) -> Set<String> { self.attr_keyset().map(|a: Attribute| attr_name(a)) }
+    // `attr_keys().cloned().collect::<BTreeSet<_>>()`: the key set
+    #[verifier::external_body] pub fn attr_keys(&self) -> (r: KvxAttrKeys<'_>) ensures r.set() == self.attr_keyset() { unimplemented!() }
     #[verifier::external_body] pub fn get_ava_names(&self) -> (r: KvxStrIter<'_>)
         ensures forall|c: &str| #[trigger] r.set().contains(c) ==> self.attr_names().contains(c.as_key()),
                 forall|n: String| #[trigger] self.attr_names().contains(n) ==> exists|c: &str| r.set().contains(c) && #[trigger] c.as_key() == n { unimplemented!() }
@@ -114,6 +125,49 @@ pub open spec fn conditions_resolved(ident: &Identity, rcv: &AccessControlReceiv
     &&& (tgt matches AccessControlTarget::Scope(f) && tc == AccessControlTargetCondition::Scope(resolved_filter(*f, ident)))
 }
 //@extract resolve_access_conditions
+
+// ---- create_allow_operation (access/mod.rs): the driver ----
+pub struct CreateEvent { pub ident: Identity }
+pub struct AcpTxn<'a> { pub create: Vec<AccessControlCreate>, pub cache: &'a u8 }
+impl<'a> AcpTxn<'a> {
+    pub fn get_create(&self) -> (r: &Vec<AccessControlCreate>) ensures *r == self.create { &self.create }
+    #[verifier::external_body] pub fn get_acp_resolve_filter_cache(&self) -> (r: &mut ResolveFilterCacheReadTxn<'a>) { unimplemented!() }
+}
+// statement of C24 for create: "succeeds only if every attribute and class it adds is granted by an access control profile matching
+// that user and that entry"
+pub open spec fn profile_matches(acp: &AccessControlProfile, ident: &Identity, e: &Entry<EntryInit, EntryNew>) -> bool {
+    receiver_matches_user(&acp.receiver, ident) && (acp.target matches AccessControlTarget::Scope(f) && e.matches_filter(&resolved_filter(f, ident)))
+}
+pub open spec fn create_stmt_granted(state: Seq<AccessControlCreate>, ident: &Identity, e: &Entry<EntryInit, EntryNew>) -> bool {
+    &&& forall|n: String| #[trigger] e.attr_names().contains(n) ==> exists|i: int| 0 <= i < state.len() && profile_matches(&(#[trigger] state[i]).acp, ident, e) && names_in(state[i].attrs@, n)
+    &&& e.classes() matches Some(cls) && forall|n: String| #[trigger] cls.contains(n) ==> exists|i: int| 0 <= i < state.len() && profile_matches(&(#[trigger] state[i]).acp, ident, e) && names_in(state[i].classes@, n)
+}
+// what the profile-selection closure (closure 0) establishes for each element it keeps
+pub open spec fn related_create_ok(state: Seq<AccessControlCreate>, ident: &Identity, r: &AccessControlCreateResolved) -> bool {
+    exists|i: int| 0 <= i < state.len() && *r.acp == #[trigger] state[i] && conditions_resolved(ident, &state[i].acp.receiver, &state[i].acp.target, r.receiver_condition, r.target_condition)
+}
+pub open spec fn create_entry_post(state: Seq<AccessControlCreate>, ce: &CreateEvent, e: &Entry<EntryInit, EntryNew>, o: bool) -> bool {
+    &&& (o && is_user(&ce.ident)) ==> create_stmt_granted(state, &ce.ident, e)
+    &&& ce.ident.origin is Synch ==> !o
+    &&& (is_user(&ce.ident) && read_only(&ce.ident)) ==> !o
+    &&& (is_user(&ce.ident) && (builtin_new(e) || protected_new(e))) ==> !o
+}
+//@extract related_create_step
+//@extract create_entry_allowed
+// `state.iter().filter_map(step).collect::<Vec<_>>()`: every kept element is a Some(..) result of the step on an element of the state
+// (std documentation); the step's contract is the one proved for related_create_step above
+#[verifier::external_body] pub fn kvx_related_create<'b>(state: &'b Vec<AccessControlCreate>, ce: &CreateEvent, ident_memberof: Option<&BTreeSet<Uuid>>, cache: &mut ResolveFilterCacheReadTxn<'_>) -> (r: Vec<AccessControlCreateResolved<'b>>)
+    requires ident_memberof is Some == ce.ident.memberof() is Some, ident_memberof matches Some(m) ==> m@ == ce.ident.memberof()->Some_0
+    ensures forall|k: int| 0 <= k < r@.len() ==> related_create_ok(state@, &ce.ident, &#[trigger] r@[k]) { unimplemented!() }
+// `entries.iter().all(f)`: true iff f returned true for every entry (std documentation; short-circuit does not change the result);
+// f's contract is the one proved for create_entry_allowed above
+#[verifier::external_body] pub fn kvx_all_create(entries: &[Entry<EntryInit, EntryNew>], ce: &CreateEvent, related_acp: &Vec<AccessControlCreateResolved<'_>>, Ghost(state): Ghost<Seq<AccessControlCreate>>) -> (r: bool)
+    requires forall|k: int| 0 <= k < related_acp@.len() ==> related_create_ok(state, &ce.ident, &#[trigger] related_acp@[k])
+    ensures r ==> forall|i: int| 0 <= i < entries@.len() ==> create_entry_post(state, ce, &#[trigger] entries@[i], true),
+            !r ==> exists|i: int| 0 <= i < entries@.len() && create_entry_post(state, ce, &#[trigger] entries@[i], false) { unimplemented!() }
+impl<'a> AcpTxn<'a> {
+//@extract create_allow_operation
+}
 
 }
 fn main(){}
